@@ -213,7 +213,12 @@ def bind(ctx, scens, label, stats):
             stats['model_says_simulators_differ'] += 1
             if rn['fills'] != rf['fills'] or rn['exc'] != rf['exc']:
                 stats['and_the_code_differs_too'] += 1
-        if v != "ok":
+        if v.startswith("c12:"):
+            # real normal vs real fast differ on a scenario that TLC classified as inside antecedent + quantifier
+            ctx.violation("scenario:" + v[4:], "scenario (%s, lattice %d, chunk %d, trading %dm) inside the precondition: the real "
+                          "simulators differ: %s; normal %s fast %s" % (label, sc["K"], sc["chunk"], sc["tf"], v, rn, rf),
+                          {"scenario": sc})
+        elif v != "ok":
             stats['mismatch_in' if pre == "ok" else 'mismatch_out'].append({"label": label, "verdict": v, "scenario": sc,
                                                                              "normal": rn, "fast": rf})
     return res
@@ -246,6 +251,11 @@ def model_part(ctx):
         if not r.violation or r.violation["name"] != p:
             raise Machinery("non-vacuity probe %s is not reachable: Equiv would be vacuous" % p)
     ctx.coverage["antecedent_reachable_with"] = probes
+
+
+def binding_part(ctx):
+    """R + T for the model: TLC-generated and random scenarios replayed on the real simulators.  Returns the list of
+    scenarios inside the quantifier where TLC rejects the model's description of a simulator (caller decides)."""
     # R: scenarios generated by TLC, replayed on the real simulators, judged by TLC against the model
     from . import simruns as R
     R.warm_parent()
@@ -301,16 +311,18 @@ def model_part(ctx):
         ctx.notes.append("SimCore mispredicts a simulator on %d scenario(s) OUTSIDE the precondition of C12 (first: %s) - the "
                          "model is out of date there; not a C12 verdict" % (len(stats['mismatch_out']),
                                                                           json.dumps(stats['mismatch_out'][0])[:600]))
-    if stats['mismatch_in']:
-        raise Machinery("SimCore.tla no longer describes the code: on %d scenario(s) INSIDE the antecedent and quantifier of C12, "
-                        "TLC rejects what a real simulator did (first: %s). Update the model; C12's verdict on the code is the "
-                        "differential trace check." % (len(stats['mismatch_in']), json.dumps(stats['mismatch_in'][0])[:1500]))
     ctx.notes.append("outside the quantifier (exits NOT spaced wider than a trading candle moves) the fast simulator differs from "
                      "the normal one although the normal run has <= 1 resting fill per trading candle: TLC found %d such chunk-end "
                      "states on lattice 3 / chunk 3; %d reproduced on the real simulators (e.g. entry stop at 2 filled at the open of a "
                      "gapped inner minute (o=2,l=1,c=2 after close 1): fast also fills the stop-loss at 1, normal does not)" %
                      (len(dsc), n_div_conf))
+    return stats['mismatch_in']
 
 
 def replay_scenario(ctx, p):
-    raise Machinery("no model-level replay payloads are produced by C12")
+    from . import simruns as R
+    R.warm_parent()
+    stats = dict(scenarios=0, inside_quantifier=0, real_runs=0, fills=0, model_says_simulators_differ=0,
+                 and_the_code_differs_too=0, mismatch_in=[], mismatch_out=[])
+    res = bind(ctx, [p["scenario"]], "replay", stats)
+    print("replay: normal %s fast %s; model mismatches %s" % (res[0][0], res[0][1], stats['mismatch_in'] + stats['mismatch_out']))
